@@ -112,9 +112,9 @@ class C07(core.Check):
     prop = "C07"
     flavours = ["asan"]
     rule = ("per sample file (all 4 lead checksum types): digest string with EVERY position x all 256 byte values (exhaustive), upper/lower/mixed case, "
-            "wrong lengths, a wrong pin followed by a refused setter call and zck_clear_error (the pin must stay in force), pinned-vs-actual type grid, length pins (exact, +-1, 0, 2^63-1, negative), both setter orders, validate_lead followed by "
+            "wrong digests whose differences cancel under folding (swapped words, paired bit flips, sum-preserving, reversed), wrong lengths, a wrong pin followed by a refused setter call and zck_clear_error (the pin must stay in force), pinned-vs-actual type grid, length pins (exact, +-1, 0, 2^63-1, negative), both setter orders, validate_lead followed by "
             "read_lead/read_header on the same context, pins taken from F0 presented with F1 (other file, re-sealed mutated header, mutated header with old "
-            "checksum). distinct = (class, file, op sequence)")
+            "checksum); the image presented through a pipe / FIFO / socket pair / behind another image in the same descriptor. distinct = (class, file, op sequence)")
     assumptions = ["expected verdicts from Python hex/bytes semantics and the reference parse of each image"]
     worker = staticmethod(worker)
 
@@ -169,6 +169,38 @@ class C07(core.Check):
             mixed = bytes((hx[k:k + 1].upper() if k % 2 else hx[k:k + 1])[0] for k in range(n))
             for s in (hx.upper(), hx.lower(), mixed):
                 add("digest-case", name, [T, "D" + s.hex(), "v", "l", "h"], [1, 1, 1, 1, 1 if ok else 0])
+            # wrong digests whose differences from the genuine one cancel under folding (XOR / sum of words, bytes or halves): two words
+            # swapped, the same bit flipped in two words / bytes, halves swapped, byte order reversed, every word rotated
+            raw = bytes.fromhex(hx.decode())
+            W = [raw[k:k + 4] for k in range(0, len(raw), 4)]
+            alts = []
+            for a_, b_ in ((0, 1), (0, len(W) - 1), (1, 2), (len(W) // 2, len(W) - 1)):
+                if a_ != b_ and b_ < len(W) and W[a_] != W[b_]:
+                    w2 = list(W)
+                    w2[a_], w2[b_] = w2[b_], w2[a_]
+                    alts.append(("words-swapped", b"".join(w2)))
+                    for bit in (0, 7, 31):
+                        w3 = [bytearray(x) for x in W]
+                        w3[a_][bit // 8] ^= 1 << (bit % 8)
+                        w3[b_][bit // 8] ^= 1 << (bit % 8)
+                        alts.append(("same-bit-in-two-words", b"".join(bytes(x) for x in w3)))
+            for k1, k2 in ((0, 1), (0, len(raw) - 1), (3, 4), (7, 8)):
+                b3 = bytearray(raw)
+                b3[k1] ^= 0x40
+                b3[k2] ^= 0x40
+                alts.append(("same-bit-in-two-bytes", bytes(b3)))
+                b4 = bytearray(raw)
+                if b4[k1] < 255 and b4[k2] > 0:
+                    b4[k1] += 1
+                    b4[k2] -= 1
+                    alts.append(("sum-preserving", bytes(b4)))
+            alts.append(("halves-swapped", raw[len(raw) // 2:] + raw[:len(raw) // 2]))
+            alts.append(("reversed", raw[::-1]))
+            alts.append(("rotated-by-one-byte", raw[1:] + raw[:1]))
+            for what, alt in alts:
+                if alt != raw:
+                    add("digest-cancelling-difference", name, [T, "D" + alt.hex().encode().hex(), "l"], [1, 1, 0], what)
+                    add("digest-cancelling-difference", name, [T, "D" + alt.hex().encode().hex(), "v", "o"], [1, 1, 0, 0], what)
             # lengths
             for ln in (0, 1, n - 2, n - 1, n + 1, n + 2, 2 * n, n // 2):
                 s = (hx * 3)[:ln]
@@ -203,6 +235,13 @@ class C07(core.Check):
             add("order", name, [T, "D" + hx.hex(), T], [1, 1, 0], "type after digest")
             # no pins: plain read
             add("no-pins", name, ["v", "l", "h"], [1, 1, 1 if ok else 0])
+            # the same verdicts when the bytes arrive through a pipe, a FIFO, a socket, or follow another image in the same descriptor
+            for F in ("Fpipe", "Ffifo", "Fsock", "Foff"):
+                add("descriptor-kind", name, [F, T, "D" + hx.hex(), "L%d" % total, "l", "h"], [1, 1, 1, 1, 1 if ok else 0], F)
+                add("descriptor-kind", name, [F, T, "D" + wrongd.hex(), "l"], [1, 1, 0], F + " wrong digest")
+                add("descriptor-kind", name, [F, T, "D" + hx.hex(), "L%d" % (total + 1), "l"], [1, 1, 1, 0], F + " wrong length")
+                add("descriptor-kind", name, [F, "o"], [1 if ok else 0], F + " plain open")
+                # (zck_validate_lead rewinds the descriptor afterwards, so it needs a seekable one: not asked of pipes)
         # cross-file: pins from F0, image F1
         for n1, d1, n0 in derived:
             t0, dg0, total0, ok0 = info[n0]
